@@ -37,6 +37,11 @@ pub struct Case {
     /// archive manager compression mode: "None" | "ZLib" | "LZ4"
     pub mode: String,
     pub ops: Vec<Op>,
+    /// what DynamicContainer::write receives as its `key` argument: "" / "ekey" = the encoding key,
+    /// "content" = MD5 of the plain content (a content key), "random" = unrelated bytes. Objects are
+    /// always read back by their ENCODING key, which is what the property promises.
+    #[serde(default)]
+    pub caller_key: String,
 }
 
 const CLASSES: [&str; 9] = ["random", "compressible", "empty", "one_byte", "starts_with_BLTE", "BLTE_at_0x1E", "nested_blte", "local_header_then_blte", "zeros"];
@@ -247,7 +252,8 @@ impl Scenario for Store {
             };
             ops.push(op);
         }
-        Case { sys: sys.to_string(), mode: mode.to_string(), ops }
+        let caller_key = if sys == "container" { (*rng.pick(&["ekey", "content", "content", "random"])).to_string() } else { String::new() };
+        Case { sys: sys.to_string(), mode: mode.to_string(), ops, caller_key }
     }
 
     fn execute(&self, case: &Case, ctx: &mut Ctx) -> Option<Violation> {
@@ -403,7 +409,18 @@ async fn run(case: &Case, ctx: &mut Ctx) -> Option<Violation> {
                 let expect_ekey = blte_of(&data, eff_mode).map(|b| *EncodingKey::from_data(&b).as_bytes());
                 let res: Result<([u8; 16], (u16, u32, u32)), String> = match &mut sut {
                     Sut::Container(c) => match expect_ekey {
-                        Some(ek) => c.write(&ek, &data).await.map(|()| (ek, (0, 0, 0))).map_err(|e| e.to_string()),
+                        Some(ek) => {
+                            let caller: [u8; 16] = match case.caller_key.as_str() {
+                                "content" => md5::compute(&data).0,
+                                "random" => {
+                                    let mut k = [0u8; 16];
+                                    k.copy_from_slice(&super::payload(0xCA11_0000 + i as u64, 16));
+                                    k
+                                }
+                                _ => ek,
+                            };
+                            c.write(&caller, &data).await.map(|()| (ek, (0, 0, 0))).map_err(|e| e.to_string())
+                        }
                         None => Err("BLTE encoding of the payload failed in the harness".into()),
                     },
                     Sut::Install(inst) => match expect_ekey {
